@@ -504,6 +504,7 @@ SchemaTable(P) == <<
   <<"phase0.VoluntaryExit", VoluntaryExit, TRUE, S>>,
   <<"phase0.SignedVoluntaryExit", SignedVoluntaryExit, TRUE, S>>,
   <<"phase0.VoluntaryExits", VoluntaryExits(P), TRUE, "BeaconBlockBody.voluntary_exits">>,
+  <<"phase0.DepositRootsView", List(Root, Pow2Lim(DEPOSIT_CONTRACT_TREE_DEPTH)), TRUE, "deposit contract: List[DepositData root, 2**DEPOSIT_CONTRACT_TREE_DEPTH] (view only)">>,
   \* ---- altair
   <<"altair.BeaconBlockBody", AltairBeaconBlockBody(P), TRUE, S>>,
   <<"altair.BeaconBlock", BlockOf(AltairBeaconBlockBody(P)), TRUE, S>>,
